@@ -223,6 +223,17 @@ Next ==
 
 Spec == Init /\ [][Next]_vars
 
+\* a restriction of Next used only to GENERATE behaviours (simulation) in which generators and
+\* single-step derivations on the same few nodes are dense
+NextGenFocus ==
+  \/ \E t \in Threads, w \in {"full"}, p \in {<<>>, <<1>>}, i \in Idx : CkdCompute(t, w, p, i)
+  \/ \E t \in Threads : CkdAppend(t)
+  \/ \E t \in Threads, g \in GenIds, p \in {<<>>, <<1>>} : GenNew(t, g, "full", p, "p2wpkh")
+  \/ \E t \in Threads, g \in GenIds, s \in {0, 2} : GenStep(t, g, s)
+  \/ \E t \in Threads : ByPath(t, "full", <<1>>)
+  \/ \E p \in {<<>>, <<1>>} : Scramble("full", p)
+SpecGenFocus == Init /\ [][NextGenFocus]_vars
+
 ---------------------------------------------------------------------------
 \* C13 Pure: every completed call returned the stateless reference value
 Pure ==
